@@ -28,6 +28,7 @@ RULE = (
     "Oracle = two-sided laws from the specification (must-accept / must-reject / may-accept-but-equal), literal == variable, "
     "idempotence of output->input->output. Distinct = (scalar, direction, value); non-trivial = the value lies within 1 (or 1 ulp) "
     "of a listed boundary, is non-finite, or is a non-canonical spelling."
+    " Law variable_default: a literal written as the default of an unset operation variable = the same literal as an argument = the same JSON value provided for the variable, through execute, for every grid spelling and drawn datetime."
 )
 ASSUMPTIONS = ["Date/Time/DateTime are exercised only with naive, second-precision values (the statement's 'well-formed')"]
 INT_MIN, INT_MAX = -(2 ** 31), 2 ** 31 - 1
@@ -404,10 +405,27 @@ def law_literal(name, kind, spelling, via_engine=False):
             raise Violation(spec, "%s literal %s via execute: should be refused; response %r" % (name, text, resp), tag="engine_mismatch")
 
 
+def law_variable_default(name, text, jv, spec):
+    """a literal written as the default of an operation variable that the request leaves unset = the same literal as an
+    argument = the same JSON value provided for the variable (all three through execute)"""
+    fx = fixture()
+    got = {}
+    for how, q, variables in (("literal", "{ i%s(v: %s) }" % (name, text), None), ("variable", "query($v: %s) { i%s(v: $v) }" % (name, name), {"v": jv}),
+                              ("variable default", "query($v: %s = %s) { i%s(v: $v) }" % (name, text, name), None)):
+        ctx = {}
+        resp = run_async(fx["engine"].execute(q, context=ctx, variables=variables))
+        if "errors" in resp or "got" not in ctx:
+            raise Violation(spec, "%s %s supplied as %s is refused: %r (query %s)" % (name, text, how, resp, q), tag="variable_default")
+        got[how] = ctx["got"]
+    if not (same(got["literal"], got["variable"]) and same(got["literal"], got["variable default"])):
+        raise Violation(spec, "%s %s: the resolver receives different values by route: %r" % (name, text, got), tag="variable_default")
+
+
 def law_datetime(name, dt):
     fx = fixture()
     sc = fx["scalars"][name]
     spec = {"law": "datetime", "scalar": name, "value": dt.isoformat()}
+    law_variable_default(name, json.dumps(sc.coerce_output(dt)), sc.coerce_output(dt), spec)
     try:
         out = sc.coerce_output(dt)
         back = sc.coerce_input(out)
@@ -470,6 +488,7 @@ def run_grid(stats, index, nworkers):
         if i % nworkers != index:
             continue
         law_sdl_default(field, name, kind, sp)
+        law_variable_default(name, text, json_of(kind, sp), {"law": "variable_default", "scalar": name, "kind": kind, "spelling": sp})
         stats.case({"s": name, "d": "sdl_default", "k": kind, "v": sp}, True, ["grid:sdl_default:" + name], {"scalar": name, "direction": "sdl_default", "spelling": sp})
     for name in ("Date", "Time", "DateTime"):
         for dt in DT_GRID:
@@ -576,6 +595,10 @@ def replay(spec):
         law_literal(spec["scalar"], spec["kind"], spec["spelling"], spec.get("engine", False))
     elif law == "sdl_default":
         law_sdl_default(spec["field"], spec["scalar"], spec["kind"], spec["spelling"])
+    elif law == "variable_default":
+        kind, sp = spec["kind"], spec["spelling"]
+        text = sp if kind in ("int", "float") else (json.dumps(sp, ensure_ascii=False) if kind == "string" else ("true" if sp else "false"))
+        law_variable_default(spec["scalar"], text, json_of(kind, sp), spec)
     else:
         law_datetime(spec["scalar"], datetime.datetime.fromisoformat(spec["value"]) if "T" in spec["value"] or "-" in spec["value"] else datetime.datetime.strptime(spec["value"], "%H:%M:%S"))
 
